@@ -38,8 +38,13 @@ class ModelMixin(Generic[T]):
         """
         if session is None:
             session = db.session
-        return cast(Optional[T], session.execute(
-            db.select(cls).filter_by(**kwargs)).scalar_one_or_none())
+        try:
+            return cast(Optional[T], session.execute(
+                db.select(cls).filter_by(**kwargs)).scalar_one_or_none())
+        except OverflowError:
+            # an integer that SQLite can not hold (a primary key taken from
+            # a URL) matches no row
+            return None
 
     @classmethod
     def search(clz, max_items: int | None = None,
